@@ -138,14 +138,20 @@ def run(ctx):
     if "Serialisable" not in u.violated:
         raise MachineryFault("Serial.tla without the lock is still serialisable: the model is vacuous")
     pm_files = []
-    for (p, k) in ([(2, 1), (3, 2)] if quick else [(2, 1), (2, 3), (3, 2), (4, 2), (4, 3)]):
-        pm = ctx.tlc("Plugins", defines={"P": str(p), "K": str(k)}, timeout=600, tag="plugins P=%d K=%d" % (p, k))
+    plans = [(2, 1, False), (3, 2, False), (2, 2, True)] if quick else \
+            [(2, 1, False), (2, 3, False), (3, 2, False), (4, 2, False), (4, 3, False), (2, 2, True), (3, 3, True), (4, 1, True)]
+    for (p, k, nested) in plans:
+        pm = ctx.tlc("Plugins", defines={"P": str(p), "K": str(k), "Nested": "TRUE" if nested else "FALSE"}, timeout=600,
+                     tag="plugins P=%d K=%d nested=%s" % (p, k, nested))
         if pm.violated:
-            raise MachineryFault("Plugins.tla (synchronised) violates %s" % pm.violated)
+            raise MachineryFault("Plugins.tla (synchronised, wait first) violates %s" % pm.violated)
         pm_files.append(pm.beh_path)
     pu = ctx.tlc("Plugins", cfg="PluginsUnsync.cfg", timeout=300, expect_violation=True, tag="plugins-unsync-sanity")
     if "AllReported" not in pu.violated:
         raise MachineryFault("Plugins.tla without synchronisation loses nothing: the model is vacuous")
+    pd = ctx.tlc("Plugins", cfg="PluginsDeferredWait.cfg", timeout=300, expect_violation=True, tag="plugins-deferred-wait-sanity")
+    if "AllReported" not in pd.violated:
+        raise MachineryFault("Plugins.tla with the wait deferred behind the body loses nothing: the model is vacuous")
 
     extra = []
     if not quick:
@@ -192,7 +198,7 @@ def run(ctx):
         for f in pm_files:
             for line in open(f):
                 w = json.loads(line)
-                key = (w["p"], w["k"])
+                key = (w["p"], w["k"], w.get("nested"))
                 if key in seen:
                     continue
                 seen.add(key)
